@@ -38,7 +38,7 @@ def examples(tier):
 def strategy(draw, tier="quick"):
     regime = draw(st.sampled_from(REGIMES))
     acyclic = draw(st.integers(0, 3)) == 0
-    m = draw(gen.automaton(regime=regime, acyclic=acyclic))
+    m = draw(gen.automaton(regime=regime, acyclic=acyclic, alphabet=draw(st.sampled_from(gen.ALPHABETS))))
     return {"m": m, "cls": draw(st.sampled_from(["base", "field"])), "n": 3 if tier == "quick" else 4}
 
 
@@ -52,7 +52,8 @@ def check(case, ctx):
     m = ctx.call("build", lib_wfsa, M, c, case["cls"])
     if isinstance(m, LibRaised):
         return
-    strings = gen.all_strings(["a", "b"], case.get("n", 3))
+    strings = gen.all_strings(c.get("alphabet", ["a", "b"]), case.get("n", 3))
+    ctx.cls("alphabet:" + repr(c.get("alphabet", ["a", "b"])))
     want = {xs: W(xs) for xs in strings}
     nz = [xs for xs in strings if not M.is_zero(want[xs])]
     ctx.nontrivial = bool(nz) and ("eps_cycle" in cl or "eps_arc" in cl or "parallel_arcs" in cl or "multi_initial" in cl)
